@@ -17,6 +17,7 @@ import pipeline
 import resp
 import c03_docs as D
 import c03_mint
+import c03_sources as S
 from c03_docs import E
 from pipeline import A, R
 from core import Exn, call, cstr, cbool, copt, clist
@@ -25,19 +26,19 @@ from saml2_tophat import md, saml, samlp, sigver, class_name
 from saml2_tophat.config import IdPConfig, SPConfig
 
 CLAIM = {
-    "text": "Coq theorems (Props/C03.v) over (1) the model of MetaData.certs and the certificate selection + per-certificate loop of _check_signature, for every federation, issuer, embedded certificate list and signing key: with only_use_keys_in_metadata on, a successful check implies the signer's key is a certificate of a key descriptor of the ISSUER's own entity whose use is signing or absent (exact characterisation of certs(): never an encryption-only descriptor, whatever the descriptor order; never another entity's); unknown issuer / no signing key => MissingKey even with an embedded certificate; foreign key => SignatureError; with the setting off the embedded certificates are used iff metadata yields none. The model follows /repo + proposed_fix/C03-1 (MetaData.certs skips a key descriptor without X509Data); the code before it - KeyError for the whole entity, swallowed as 'no metadata certificates' - is refuted by C03_embedded_only_as_fallback_before_fix_refuted (an embedded foreign key trusted although metadata holds a signing key) and shown only needlessly strict under the default setting (C03_before_fix_default_setting); (2) the model of the issuer-selection step of _check_signature (element's own Issuer, stripped, first; the issuer= argument only when the element names nobody) and of every call site with the argument it passes (correctly_signed_response / correctly_signed_message / _assertion: none; decrypt_assertions: none for response-level EncryptedAssertions, the enclosing assertion's Issuer for encrypted advice; direct callers: anything): the candidate certificates are those of the signed element's OWN Issuer whenever it has one, at every site and for every argument (C03_own_issuer_decides, C03_call_sites, C03_accepted_under_own_issuer); for a whole response document run through the entry point with its two retries (C03_document, induction over the assertion lists): every signed element of an accepted document - Response, plain assertion, assertion inside EncryptedAssertion, assertion inside encrypted Advice - was signed with a key trusted for ITS OWN issuer, an advice assertion without Issuer being the only element judged under another element's name; (3) histories (C03_history_*, induction over operation sequences on any set of long-lived clients, any starting state): the n-th outcome equals the outcome of that operation on that client alone. (4) certificate validity dates (Model/CertValidity.v: a certificate is (key, validity window Valid | Expired | NotYetValid), the window carried through certs() and the selection and read by nothing): C03_validity_erased - the model with dates gives on every input the verdict of the model without them on the federation with the dates erased, so every theorem above holds for federations with expired / not-yet-valid certificates; C03_validity_ignored - re-dating every metadata and KeyInfo certificate changes neither the verdict nor the fallback decision; C03_fallback_declared_list_only - KeyInfo is consulted iff the setting is off and the DECLARED signing list is empty; C03_declared_certificate_blocks_fallback - any certificate, whatever its window, in a signing / use-less key descriptor of the issuer's entity means KeyInfo is not consulted under either setting; C03_validity_only_issuer_keys, C03_declared_key_accepted_whatever_window. The loop is the C20 model instantiated with a tool that reports success iff the certificate holds the signer's key. Tie: generated federations (29 key-descriptor layouts, 6 of them with KeyName / KeyValue-only descriptors, 12 with expired / not-yet-valid certificates of the same keys - only expired, only not-yet-valid, both, expired + renewed, expired foreign + valid own, valid encryption-only + not-yet-valid foreign signing - minted by harness/c03_mint.py, their windows re-checked against the real and the harness clock on every run; embedded certificates always currently valid) x issuer x key x embedded x setting on vcheck_signature / vmd_certs (certificates told apart by window); validity federations also among the document, direct-call, message and history clients (compared with Model/IssuerSel.v on the erased federation, which C03_validity_erased justifies); places x outer issuer x own issuer x key x embedded x setting; direct calls x own x argument; seven message kinds; seeded operation sequences over five clients with conflicting metadata - each on implementation (real RSA through the stand-in, real ciphertexts) and model.",
-    "note": "Trusted: Coq kernel + vm_compute; hand-written models tied to the code by correspondence (exhaustive over the listed finite products in the thorough tier; the quick tier drops the listed slices); stand-in xmlsec1 verifies with the certificate file pysaml2 hands it; certificates are identified with (key, validity window) - Model/CertSelect.v with the key alone (cert n holds key n); what the library does with an EXPIRED KeyInfo certificate in the setting-off fallback is left unspecified (not generated); certificate-chain validation (cert_handler) is off as in the default configuration; want_assertions_or_response_signed off (C02/C04); plain (unencrypted) assertions inside an Advice are not verified by the library at all and are outside the statement.",
+    "text": "Coq theorems (Props/C03.v) over (1) the model of MetaData.certs and the certificate selection + per-certificate loop of _check_signature, for every federation, issuer, embedded certificate list and signing key: with only_use_keys_in_metadata on, a successful check implies the signer's key is a certificate of a key descriptor of the ISSUER's own entity whose use is signing or absent (exact characterisation of certs(): never an encryption-only descriptor, whatever the descriptor order; never another entity's); unknown issuer / no signing key => MissingKey even with an embedded certificate; foreign key => SignatureError; with the setting off the embedded certificates are used iff metadata yields none. The model follows /repo + proposed_fix/C03-1 (MetaData.certs skips a key descriptor without X509Data); the code before it - KeyError for the whole entity, swallowed as 'no metadata certificates' - is refuted by C03_embedded_only_as_fallback_before_fix_refuted (an embedded foreign key trusted although metadata holds a signing key) and shown only needlessly strict under the default setting (C03_before_fix_default_setting); (2) the model of the issuer-selection step of _check_signature (element's own Issuer, stripped, first; the issuer= argument only when the element names nobody) and of every call site with the argument it passes (correctly_signed_response / correctly_signed_message / _assertion: none; decrypt_assertions: none for response-level EncryptedAssertions, the enclosing assertion's Issuer for encrypted advice; direct callers: anything): the candidate certificates are those of the signed element's OWN Issuer whenever it has one, at every site and for every argument (C03_own_issuer_decides, C03_call_sites, C03_accepted_under_own_issuer); for a whole response document run through the entry point with its two retries (C03_document, induction over the assertion lists): every signed element of an accepted document - Response, plain assertion, assertion inside EncryptedAssertion, assertion inside encrypted Advice - was signed with a key trusted for ITS OWN issuer, an advice assertion without Issuer being the only element judged under another element's name; (3) histories (C03_history_*, induction over operation sequences on any set of long-lived clients, any starting state): the n-th outcome equals the outcome of that operation on that client alone. (4) certificate validity dates (Model/CertValidity.v: a certificate is (key, validity window Valid | Expired | NotYetValid), the window carried through certs() and the selection and read by nothing): C03_validity_erased - the model with dates gives on every input the verdict of the model without them on the federation with the dates erased, so every theorem above holds for federations with expired / not-yet-valid certificates; C03_validity_ignored - re-dating every metadata and KeyInfo certificate changes neither the verdict nor the fallback decision; C03_fallback_declared_list_only - KeyInfo is consulted iff the setting is off and the DECLARED signing list is empty; C03_declared_certificate_blocks_fallback - any certificate, whatever its window, in a signing / use-less key descriptor of the issuer's entity means KeyInfo is not consulted under either setting; C03_validity_only_issuer_keys, C03_declared_key_accepted_whatever_window. (5) metadata sources other than local files (Model/CertSource.v: a store is a list of sources in configuration order, static - inline / remote, parsed when the client is built - or lazy - MDQ / MDX, asked per entity id, caching what it got; a server is ANY function from the asked id to not-found | unparsable | descriptors, each with its OWN entityID; do_entity_descriptor files each under its own id, the asked id is then looked up): C03_source_lookup - a lookup never hands out a descriptor of another name; C03_source_named_like_issuer / C03_source_setting_off - accepted => the key is declared for signing by a descriptor whose entityID IS the issuer, which the store held or the server has just sent (setting off: or the embedded certificate); C03_source_named_descriptor_blocks_fallback; C03_source_history(_setting_off) - induction over operation sequences on one long-lived client, every step with its own answer function (first / second lookup, replayed or changing answers); C03_source_unchecked_refuted - a lazy source that files the answer under the ASKED id without comparing accepts idpA's key for issuer idpB. The loop is the C20 model instantiated with a tool that reports success iff the certificate holds the signer's key. Tie: generated federations (29 key-descriptor layouts, 6 of them with KeyName / KeyValue-only descriptors, 12 with expired / not-yet-valid certificates of the same keys - only expired, only not-yet-valid, both, expired + renewed, expired foreign + valid own, valid encryption-only + not-yet-valid foreign signing - minted by harness/c03_mint.py, their windows re-checked against the real and the harness clock on every run; embedded certificates always currently valid) x issuer x key x embedded x setting on vcheck_signature / vmd_certs (certificates told apart by window); validity federations also among the document, direct-call, message and history clients (compared with Model/IssuerSel.v on the erased federation, which C03_validity_erased justifies); places x outer issuer x own issuer x key x embedded x setting; direct calls x own x argument; seven message kinds; seeded operation sequences over five clients with conflicting metadata; 31 source configurations (mdq through a fake requests.get: own answer, another entity's descriptor, swapped, default entity for unknown ids, aggregates in both orders / without the asked id / with it twice, 404, 500 with body, empty, garbage, other XML, answers that change between first and second lookup, encryption-only descriptor; remote through a fake requests.request; inline; combinations in both orders) x setting x order of the first questions, each a long-lived client with a history of checks (issuer {idp1, idp2, unknown} x key x embedded, direct and end-to-end) vs run_steps - each on implementation (real RSA through the stand-in, real ciphertexts) and model.",
+    "note": "Trusted: Coq kernel + vm_compute; hand-written models tied to the code by correspondence (exhaustive over the listed finite products in the thorough tier; the quick tier drops the listed slices); stand-in xmlsec1 verifies with the certificate file pysaml2 hands it; certificates are identified with (key, validity window) - Model/CertSelect.v with the key alone (cert n holds key n); what the library does with an EXPIRED KeyInfo certificate in the setting-off fallback is left unspecified (not generated); certificate-chain validation (cert_handler) is off as in the default configuration; want_assertions_or_response_signed off (C02/C04); sources: which of two descriptors of the SAME name wins (document order, source order, cached vs fetched again) and whether an unparsable answer counts as 'no metadata key' under the setting off are left open (oracle only / not generated); metadata signature / validUntil of a served answer are C-other business (answers are unsigned and unexpired); the fake network stands in for requests; plain (unencrypted) assertions inside an Advice are not verified by the library at all and are outside the statement.",
     "technique": "machine-checked proof (Coq, induction over metadata lists, assertion lists and operation sequences) + correspondence over generated federations, documents and histories + oracle",
 }
 TRUSTED = ["modelled (as repaired by proposed_fix/C03-1): MetaData.certs/extract_certs, MetadataStore.__getitem__ (first entity with the id), issuer selection, certificate selection and loop of SecurityContext._check_signature, the issuer= argument of every call site, the order of signature checks in correctly_signed_response / parse_assertion / decrypt_assertions and the two retries of Entity._parse_response",
            "stand-in xmlsec1 (real RSA signatures and ciphertexts; key given on the command line only; verifies under the key of the certificate file, no look at its dates)",
            "modelled: nothing in MetaData.certs / _check_signature / cert_from_instance(ignore_age=True) reads a certificate's validity dates (Model/CertValidity.v)"]
-ASSUMPTIONS = ["symbolic signature: verifies under a certificate iff it holds the signer's key and the content is unmodified"]
+ASSUMPTIONS = ["the fake network (harness/c03_sources.py) answers requests.get / requests.request as a metadata server could", "symbolic signature: verifies under a certificate iff it holds the signer's key and the content is unmodified"]
 RULE = ("(1) IdP-1 key-descriptor layouts (29, six of them with key descriptors that carry a KeyName / KeyValue and no X509Data, twelve with expired / not-yet-valid certificates - idp2's certificate expired there too) x claimed issuer {idp1, idp2, unknown, absent, prefix-of-idp1, upper-case idp1} x signing key {idp, idp2, other, sp2, sp} x embedded KeyInfo {signer's cert, none} x "
         "only_use_keys_in_metadata {on, off, unset}; (2) place {plain, encrypted, advice-of-plain, advice-of-encrypted} x outer (issuer, own signature) {idp1, idp2, unknown, idp1 signed, idp2 signed} x "
         "own issuer {idp1, idp2, unknown, absent, idp1 in white space} x key x embedded x clients {layout x setting}; (3) direct check_signature/_check_signature on assertion/response: own issuer (10 spellings) x "
         "issuer= argument (6) x key x embedded {own, none, issuer's real cert} x clients incl. one without metadata; (4) 7 message kinds x issuer x key x embedded x clients; (5) seeded operation sequences + all ordered "
-        "client pairs x site, over 5 long-lived clients (same entity ids, conflicting keys; two of them with expired / not-yet-valid certificates); validity federations among the clients of (2)-(4); non-trivial = every cell")
+        "client pairs x site, over 5 long-lived clients (same entity ids, conflicting keys; two of them with expired / not-yet-valid certificates); validity federations among the clients of (2)-(4); (6) 31 metadata-source configurations (mdq / remote / inline through a fake network; answers own / another entity / aggregate / 404 / 500 / empty / garbage / changing) x only_use_keys_in_metadata x question order, a history of >= 18 checks on each long-lived client: issuer {idp1, idp2, unknown} x key {idp, idp2, other} x embedded; non-trivial = every cell")
 
 KEYS = ["idp", "idp2", "other", "sp2", "sp", "md"]
 KID = {k: i + 1 for i, k in enumerate(KEYS)}
@@ -395,7 +396,7 @@ def run(ctx):
         ctx.oracle_fail("harness-certificate-window", complaint, None)
     with env.Clock(NOW):
         import time
-        for u in (unit_response_level, unit_certs, unit_documents, unit_direct, unit_messages, unit_history):
+        for u in (unit_response_level, unit_certs, unit_sources, unit_documents, unit_direct, unit_messages, unit_history):
             t0 = time.time()
             u(ctx)
             ctx.notes.append("%s: %.1fs" % (u.__name__, time.time() - t0))
@@ -812,6 +813,243 @@ def unit_history(ctx):
                    "fun ops : list op => show_verdicts (snd (run_ops %s [] ops))" % clist(cls, pcfg_coq), "(list op)", cases, shard=1)
 
 
+
+# ---------------------------------------------------------------------------------------------
+# (6) metadata sources other than local files: MDQ / MDX (lazy, one HTTP GET per entity id, answers cached), remote,
+#     inline - and answers that do not match the question.  The certificates a signature for issuer B is checked
+#     under must come from a descriptor whose entityID IS B - never from whatever the source was handed.
+# ---------------------------------------------------------------------------------------------
+LA = [("signing", ["idp"])]
+LB = [("signing", ["idp2"]), ("encryption", ["sp2"])]
+LA_OTHER = [("signing", ["other"])]
+LB_OTHER = [(None, ["other"])]
+LB_ENC = [("encryption", ["idp2"])]
+LU = [("signing", ["other"])]
+SRC_ISSUERS = {"idp1": IDP_ID, "idp2": IDP2_ID, "unknown": UNKNOWN_ID}
+
+
+def ents(*pairs, **kw):
+    return dict(kind="ents", ents=[(n, l) for n, l in pairs], **kw)
+
+
+def status(code, *pairs):
+    return dict(kind="status", status=code, ents=[(n, l) for n, l in pairs])
+
+
+def mdq(**answers):
+    return dict(typ="mdq", answers=answers)
+
+
+OWN = dict(idp1=[ents(("idp1", LA))], idp2=[ents(("idp2", LB))])
+SOURCE_CLASSES = {
+    # (i) the answer for B is B's own descriptor
+    "mdq-own": [mdq(**OWN)],
+    # (ii) the answer for B is a descriptor with ANOTHER entityID: a fallback / mixed-up / replayed answer
+    "mdq-another": [mdq(idp1=[ents(("idp1", LA))], idp2=[ents(("idp1", LA))])],
+    "mdq-another-rekeyed": [mdq(idp1=[ents(("idp1", LA_OTHER))], idp2=[ents(("idp1", LA))])],
+    "mdq-default-entity": [mdq(idp1=[ents(("idp1", LA))], idp2=[ents(("idp2", LB))], unknown=[ents(("idp1", LA))])],
+    "mdq-swapped": [mdq(idp1=[ents(("idp2", LB))], idp2=[ents(("idp1", LA))])],
+    # (iii) an aggregate containing A and B (both orders), one without the asked id, one with the asked id twice
+    "mdq-aggregate-AB": [mdq(idp1=[ents(("idp1", LA), ("idp2", LB))], idp2=[ents(("idp1", LA), ("idp2", LB))])],
+    "mdq-aggregate-BA": [mdq(idp2=[ents(("idp2", LB), ("idp1", LA))])],
+    "mdq-aggregate-without-asked": [mdq(idp2=[ents(("idp1", LA), ("unknown", LU))], idp1=[ents(("idp1", LA))])],
+    "mdq-aggregate-of-one-other": [mdq(idp2=[ents(("idp1", LA), agg=True)])],
+    "mdq-aggregate-twice": [mdq(idp2=[ents(("idp2", LB_OTHER), ("idp2", LB), ("idp1", LA))])],
+    # (iv) 404 / 500 with B's descriptor as body / empty / garbage / well-formed XML that is no metadata
+    "mdq-404": [mdq(idp1=[ents(("idp1", LA))])],
+    "mdq-500-with-body": [mdq(idp2=[status(500, ("idp2", LB))], idp1=[status(404, ("idp1", LA))])],
+    "mdq-empty": [mdq(idp2=[dict(kind="empty")], idp1=[ents(("idp1", LA))])],
+    "mdq-garbage": [mdq(idp2=[dict(kind="garbage")], idp1=[ents(("idp1", LA))])],
+    "mdq-other-xml": [mdq(idp2=[dict(kind="other-xml")], idp1=[ents(("idp1", LA))])],
+    # (v) first lookup vs second lookup of the same id
+    "mdq-404-then-own": [mdq(idp2=[status(404), ents(("idp2", LB))], idp1=[ents(("idp1", LA))])],
+    "mdq-another-then-own": [mdq(idp2=[ents(("idp1", LA)), ents(("idp2", LB))], idp1=[ents(("idp1", LA_OTHER))])],
+    "mdq-own-then-another": [mdq(idp2=[ents(("idp2", LB)), ents(("idp1", LA))], idp1=[ents(("idp1", LA))])],
+    "mdq-own-then-rekeyed": [mdq(idp2=[ents(("idp2", LB)), ents(("idp2", LB_OTHER))], idp1=[ents(("idp1", LA))])],
+    "mdq-garbage-then-another": [mdq(idp2=[dict(kind="garbage"), ents(("idp1", LA)), status(404)])],
+    # named like the issuer, no signing key in it
+    "mdq-enc-only": [mdq(idp2=[ents(("idp2", LB_ENC))], idp1=[ents(("idp1", LA))])],
+    "mdq-enc-only-in-aggregate": [mdq(idp2=[ents(("idp1", LA), ("idp2", LB_ENC))])],
+    # several sources, in the order of the configuration
+    "inline+mdq": [dict(typ="inline", fed=[("idp1", LA)]), mdq(idp1=[ents(("idp1", LA_OTHER))], idp2=[ents(("idp1", LA_OTHER))])],
+    "mdq-another+inline": [mdq(idp2=[ents(("idp1", LA))]), dict(typ="inline", fed=[("idp2", LB)])],
+    "mdq-own+inline-rekeyed": [mdq(**OWN), dict(typ="inline", fed=[("idp2", LB_OTHER), ("idp1", LA_OTHER)])],
+    "inline-A-only": [dict(typ="inline", fed=[("idp1", LA)])],
+    "remote": [dict(typ="remote", fed=[("idp1", LA), ("idp2", LB)])],
+    "remote-A-only": [dict(typ="remote", fed=[("idp1", LA)])],
+    "remote-twice": [dict(typ="remote", fed=[("idp2", LB_OTHER), ("idp1", LA), ("idp2", LB)])],
+    "remote-A+mdq-another": [dict(typ="remote", fed=[("idp1", LA)]), mdq(idp2=[ents(("idp1", LA))], unknown=[ents(("idp2", LB))])],
+    "mdq-404+remote": [mdq(), dict(typ="remote", fed=[("idp2", LB), ("idp1", LA)])],
+}
+SRC_KEYS = ["idp", "idp2", "other"]
+_net = [None]
+_src_xml = {}
+
+
+def net():
+    if _net[0] is None:
+        _net[0] = S.Net(lambda n, l: _src_md(n, l))
+    return _net[0]
+
+
+def _src_md(iname, layout):
+    k = (iname, json.dumps(layout))
+    if k not in _src_xml:
+        _src_xml[k] = idp_md(SRC_ISSUERS[iname], layout)
+    return _src_xml[k]
+
+
+def source_clients(ctx):
+    cls = []
+    for cname, sources in SOURCE_CLASSES.items():
+        for only_md in (True, False):
+            for order in ("B-first", "A-first"):
+                if ctx.quick and order == "A-first" and not any(s["typ"] == "mdq" for s in sources):
+                    continue
+                cls.append(dict(name="%s:%s:%s" % (cname, "on" if only_md else "off", order), cls=cname, sources=copy.deepcopy(sources),
+                                only_md=only_md, order=order))
+    cls.append(dict(name="mdq-another:unset:B-first", cls="mdq-another", sources=copy.deepcopy(SOURCE_CLASSES["mdq-another"]), only_md=None, order="B-first"))
+    return cls
+
+
+def source_ops(ctx, cl):
+    first, second = ("idp2", "idp1") if cl["order"] == "B-first" else ("idp1", "idp2")
+    k1, k2 = ("idp2", "idp") if first == "idp2" else ("idp", "idp2")
+    seq = [(first, k2, True), (first, k1, True), (first, k2, True), (second, k1, True), (second, k2, True), (first, k1, None), (first, "other", True),
+           ("unknown", k2, True), ("unknown", "other", None), (second, "other", True), (first, k2, True), (second, k1, True)]
+    for _ in range(6 if ctx.quick else 40):
+        seq.append((ctx.rng.choice(["idp1", "idp2", "idp2", "unknown"]), ctx.rng.choice(SRC_KEYS), ctx.rng.choice([True, True, None])))
+    return [dict(issuer=i, key=k, embed=e, entry="e2e" if j % 5 == 2 else "css") for j, (i, k, e) in enumerate(seq)]
+
+
+def source_run_op(sp, o):
+    dk = ("src", o["issuer"], o["key"], o["embed"])
+    if dk not in _xml:
+        _xml[dk] = build_signed(SRC_ISSUERS[o["issuer"]], o["key"], o["key"] if o["embed"] else None)
+    if o["entry"] == "e2e":
+        got = resp.observe(sp, _xml[dk], outstanding={"req-1": "/x"})
+        return isinstance(got, list), got
+    got = call(sp.sec.correctly_signed_response, _xml[dk], require_response_signature=True)
+    return not isinstance(got, Exn), got
+
+
+def layout_signing(layout):
+    return [ckey(c) for use, certs in layout if use in ("signing", None) for c in certs]
+
+
+def source_held(cl):
+    """descriptors (issuer name, layout) the client's sources hold or have been handed so far"""
+    held = []
+    for s in cl["sources"]:
+        if s["typ"] == "inline":
+            held += [(n, l) for n, l in s["fed"]]
+    return held + list(net().served.get(cl["name"], []))
+
+
+def source_types(cl):
+    return "+".join(s["typ"] for s in cl["sources"])
+
+
+def source_judge(cl, o, accepted, answered):
+    """the property on one outcome, from what the sources hold / were handed (no model): None | (key, what)"""
+    held = source_held(cl)
+    named = [layout_signing(l) for n, l in held if n == o["issuer"]]
+    s_any = set(k for s in named for k in s)
+    key, only = o["key"], only_on(cl)
+    cell = "issuer=%s:only_md=%s:embedded=%s:class=%s" % (o["issuer"], cl["only_md"], bool(o["embed"]), cl["cls"])
+    if accepted:
+        if key in s_any or (not only and not s_any and o["embed"]):
+            return None
+        others = sorted(set(n for n, l in held if n != o["issuer"] and key in layout_signing(l)))
+        if others:
+            return ("certs-of-another-entity:source=%s:%s" % (source_types(cl), cell),
+                    "signature by key %r accepted for issuer %s: no descriptor NAMED %s that the sources (%s) hold or were handed declares it as a signing key (%s) - "
+                    "it is the signing key of the descriptor(s) named %s, which the source was handed in answer to a question about somebody else%s" % (
+                        key, o["issuer"], o["issuer"], source_types(cl), sorted(s_any) or "no descriptor of that name at all" if not named else sorted(s_any),
+                        others, "" if only else "; the embedded certificate may be consulted only when metadata holds no signing key for the issuer"))
+        return ("trusted-foreign-key:%s:source=%s:only_md=%s:embedded=%s:class=%s" % (o["issuer"], source_types(cl), cl["only_md"], bool(o["embed"]), cl["cls"]),
+                "signature by key %r accepted for issuer %s although the descriptors named %s in the sources declare %s" % (key, o["issuer"], o["issuer"], sorted(s_any)))
+    if answered in ("garbage", "empty"):
+        return None                       # the source raised while parsing: whether that counts as "no metadata key" is left open
+    must = (bool(named) and all(key in s for s in named)) or (not only and not s_any and bool(o["embed"]))
+    if must:
+        return ("issuer-key-refused:%s:source=%s:only_md=%s:class=%s" % (o["issuer"], source_types(cl), cl["only_md"], cl["cls"]),
+                "signature refused although %s" % ("every descriptor named %s in the sources declares key %r for signing" % (o["issuer"], key) if named and all(key in s for s in named)
+                                                   else "metadata holds no signing key for %s, the setting is off and the embedded certificate holds the signer's key" % o["issuer"]))
+    return None
+
+
+def unit_sources(ctx):
+    import contextlib
+    import io
+    with contextlib.redirect_stderr(io.StringIO()):      # the library prints 'Duplicated Entity descriptor' for every repeated answer
+        _unit_sources(ctx)
+
+
+# which of two descriptors of the SAME name wins (first in the document, first source, cached vs fetched again) is not the
+# property's business: these classes are judged by the oracle only
+SAME_NAME_TWICE = ("mdq-aggregate-twice", "remote-twice", "mdq-own-then-rekeyed", "mdq-own+inline-rekeyed")
+
+
+def desc_coq(nl):
+    n, layout = nl
+    return "{| d_id := %s; d_ent := [%s] |}" % (cstr(SRC_ISSUERS[n]), clist(layout, lambda kd: "{| kd_use := %s; kd_certs := %s |}" % (
+        copt(kd[0], cstr), clist(kd[1], lambda c: "%d" % KID[c]))))
+
+
+def source_coq(s):
+    if s["typ"] == "mdq":
+        return "(Lazy [])"
+    return "(Static %s)" % clist(s["fed"], desc_coq)
+
+
+def answer_coq(a):
+    if a is None or a["kind"] in ("status", "other-xml"):
+        return "NotFound"
+    if a["kind"] in ("empty", "garbage"):
+        return "Unparsable"
+    return "(Served %s)" % clist(a["ents"], desc_coq)
+
+
+def step_coq(o, ans):
+    return "{| q_srv := fun _ => %s; q_issuer := %s; q_embedded := %s; q_signer := %d |}" % (
+        answer_coq(ans), cstr(SRC_ISSUERS[o["issuer"]]), clist([o["key"]] if o["embed"] else [], lambda c: "%d" % KID[c]), KID[o["key"]])
+
+
+def _unit_sources(ctx):
+    cases = []
+    n = net()
+    n.install()
+    try:
+        for cl in source_clients(ctx):
+            sp = S.build_client(cl, n, SRC_ISSUERS)
+            ops = source_ops(ctx, cl)
+            steps, outcomes = [], []
+            for j, o in enumerate(ops):
+                ans = n.peek(S.mdq_url(cl, SRC_ISSUERS[o["issuer"]])) if any(s["typ"] == "mdq" for s in cl["sources"]) else None
+                answered = ans["kind"] if ans else None
+                if answered in ("garbage", "empty") and not only_on(cl):
+                    o["embed"] = None         # ParseError out of the lookup vs 'no metadata key': left open, so nothing rides on it
+                accepted, got = source_run_op(sp, o)
+                steps.append(step_coq(o, ans))
+                outcomes.append(V(accepted))
+                ctx.nontriv(("source", cl["name"], j, tuple(sorted(o.items(), key=str))))
+                ctx.count("source:%s:%s" % (source_types(cl), "accepted" if accepted else "rejected:" + (got.name if isinstance(got, Exn) else "e2e")))
+                bad = source_judge(cl, o, accepted, answered)
+                if bad:
+                    ctx.oracle_fail(bad[0], "%s (client %s, operation %d of its history: %s)" % (bad[1], cl["name"], j, json.dumps(o)),
+                                    dict(kind="sources", client=cl, ops=ops[:j + 1], accepted=accepted))
+            if cl["cls"] not in SAME_NAME_TWICE:
+                cases.append(dict(id=len(cases), coq="(%s, %s, %s)" % (cbool(only_on(cl)), clist(cl["sources"], source_coq), clist(steps, lambda x: x)),
+                                  impl=outcomes, show=dict(client=cl["name"], sources=cl["sources"], operations=ops)))
+            if cl["name"] in ("mdq-another:on:B-first", "mdq-aggregate-AB:off:A-first"):
+                ctx.sample(dict(client=cl["name"], sources=cl["sources"], first_operations=ops[:3], requests=[u for u, _ in n.log if cl["name"] in u][:4]))
+    finally:
+        n.restore()
+    ctx.correspond("metadata_sources_lazy_and_static", "Model.Sigver Model.CertSelect Model.CertSource",
+                   "fun c : bool * list source * list step => match c with (o, ss, qs) => show_verdicts_src (run_steps o ss qs) end",
+                   "(bool * list source * list step)", cases, shard=40)
+
 # ---------------------------------------------------------------------------------------------
 def replay(ctx, payload):
     env.tool_inprocess(True)
@@ -838,6 +1076,19 @@ def replay(ctx, payload):
             print("client:", inp["client"], "\nmessage:", inp["message"], inp["elem"])
             got = call(getattr(make_client(inp["client"]).sec, "correctly_signed_" + inp["message"]), D.render_message(inp["message"], inp["elem"]), must=True)
             print("implementation outcome (fresh client):", got if isinstance(got, Exn) else "accepted", "- the property wants", "acceptance" if inp["want"] else "refusal")
+        elif inp.get("kind") == "sources":
+            n = S.Net(lambda nm, l: _src_md(nm, l))
+            n.install()
+            try:
+                print("client:", json.dumps(inp["client"]))
+                sp = S.build_client(inp["client"], n, SRC_ISSUERS)
+                for j, o in enumerate(inp["ops"]):
+                    before = len(n.log)
+                    acc, got = source_run_op(sp, o)
+                    print("op %d %s -> %s   requests: %s" % (j, json.dumps(o), "accepted" if acc else got, [(u.split("/entities/")[0], k) for u, k in n.log[before:]]))
+                print("descriptors handed to the sources:", json.dumps(n.served.get(inp["client"]["name"])))
+            finally:
+                n.restore()
         elif inp.get("kind") == "history":
             sps = [make_client(cl) for cl in inp["clients"]]
             for j, o in enumerate(inp["ops"]):
